@@ -14,6 +14,7 @@ CLAIM = {
           'wrap_unique; wrap_log/wrap_log_l2p/wrap_log_nonpositive for ANY function in place of log10; offScale_*; '
           'interp_points_on_edges, interp_cross_count_M4, filter_keeps_first (every MAX >= 1, every list), '
           'plots_mem_iff / plots_order_independent (exactly the films with data are plotted, in any table order), '
+          'hasDataToPlotLAS_iff (a LAS file plots with a format iff a curve is a channel name or a listed alternate), '
           'ret_interpolate_points_M4): every '
           'value is mapped to a wrap count and a position with leftP <= pos < rightP and pos + wrap*width = L2P(value), '
           'that pair is unique, a non-positive value on a log scale is refused, and every interpolated wrap point lies '
